@@ -87,7 +87,24 @@ func init() {
 			kind := "find"
 			if r.Intn(3) == 0 {
 				kind = "replace"
-				body += " with 'R' value"
+				switch {
+				case i%5 == 0:
+					// a capture that only some matches bind, named in the with list: the replacement of a match must
+					// not depend on which earlier matches were inside the window
+					a, b := alphabet[r.Intn(len(alphabet))], alphabet[r.Intn(len(alphabet))]
+					body = []string{
+						"maybe (" + quote(b) + " = v) " + quote(a) + " with '<' v '>'",
+						"((" + quote(a) + " = v) or " + quote(b) + ") with v '|' matchNumber",
+						"at least 0 (" + quote(b) + " = v) " + quote(a) + " with v v value",
+					}[r.Intn(3)]
+					g.lits = append(g.lits, a, b, b+a, a+a)
+					g.feat("replace-optional-capture")
+				case len(g.caps) > 0:
+					body += " with '<' " + g.caps[r.Intn(len(g.caps))] + " '>' value"
+					g.feat("replace-capture")
+				default:
+					body += " with 'R' value"
+				}
 				g.feat("replace")
 			}
 			st.addFeatures(g.features)
